@@ -66,6 +66,33 @@ PROPS = {
         real_vs_stub="real: lock.go, lock_file.go, sema wrapper, Repository; simulated: object store, clock, PID/host table, goroutine choice",
         assumptions=SIM_ASSUME + ["pairwise clock offset <= 6 min, one stall <= 6 min inside a lock operation per process, no retry layer under the lock code"],
     ),
+    "C19": dict(
+        pkg="cmd/restic", test="TestVerifC19", level="exploration", quick_s=60, thorough_s=900,
+        text="generated snapshots of regular files (empty, short, all zeros, zeros with islands of data, multi-chunk, files sharing blobs) are restored "
+             "by the real runRestore into a directory in which every file is independently missing, shorter, longer, different, identical, "
+             "hard-linked to a file outside, or replaced by a symlink (to a victim file outside) or an empty directory, older or newer than the "
+             "snapshot's mtime, for --overwrite always / if-changed / if-newer / never and sparse on/off, with the order of pack downloads decided "
+             "by the seeded scheduler and in a quarter of the runs transient download errors; after a successful restore every file that the mode "
+             "says must be written has exactly the snapshot content and size and nothing was written through a symlink; every file that the mode "
+             "says must be left alone is byte-identical to before",
+        note="target states and contents are sampled; runs as root on tmpfs; an unsuccessful restore (obstacle that cannot be replaced, exhausted retries) promises nothing",
+        design_ref="3 / C19",
+        rule="one run = configuration x generated snapshot x per-file target state x overwrite mode x sparse x seeded schedule; distinct = distinct (case, event-log hash)",
+        real_vs_stub=L_REAL + "; restore target is a real directory on tmpfs",
+        assumptions=SIM_ASSUME,
+    ),
+    "C21": dict(
+        pkg="cmd/restic", test="TestVerifC21", level="fault_enumeration", quick_s=60, thorough_s=900,
+        text="the real restorer restores a generated snapshot (same content classes as C19) into an empty directory under the seeded scheduler; then "
+             "zero, one or two restored files are damaged at rest: one bit changed at a generated position, truncation at a generated length, or "
+             "one byte appended; the real VerifyFiles of the same restorer must fail if and only if some restored file now differs from the "
+             "snapshot content in any byte or in length",
+        note="damage positions are sampled, not enumerated byte by byte",
+        design_ref="3 / C21",
+        rule="one run = configuration x generated snapshot x sparse x damage set x seeded schedule; distinct = distinct (case, event-log hash)",
+        real_vs_stub=L_REAL + "; restore target is a real directory on tmpfs",
+        assumptions=SIM_ASSUME,
+    ),
     "C26": dict(
         pkg="cmd/restic", test="TestVerifC26", level="fault_enumeration", quick_s=45, thorough_s=600,
         text="generated snapshots, optionally one completed rewrite first, then one of tag / rewrite --exclude (--forget or keeping the old one) / "
